@@ -356,6 +356,20 @@ func init() {
 		for _, k := range keys {
 			out = append(out, fmt.Sprintf("%s=%d", k, cl.w.GetCommitted(string(mustUnhx(k))).UnixNano()))
 		}
+		// the caller (the syncer) keeps updating its own map as it merges snapshots: what the
+		// cleaner was told is "merged AND uploaded" must only change through SetCommitted
+		for k := range m {
+			m[k] = time.Unix(0, 1<<62)
+		}
+		m["a-new-instance-the-caller-has-merged-since"] = time.Unix(0, 1<<62)
+		for i, k := range keys {
+			if now := fmt.Sprintf("%s=%d", k, cl.w.GetCommitted(string(mustUnhx(k))).UnixNano()); now != out[i] {
+				return fmt.Sprintf("FAIL committed-record-changed-without-SetCommitted %s -> %s (the cleaner keeps the caller's live map)", out[i], now)
+			}
+		}
+		if !cl.w.GetCommitted("a-new-instance-the-caller-has-merged-since").IsZero() {
+			return "FAIL committed-record-changed-without-SetCommitted (the cleaner keeps the caller's live map)"
+		}
 		return "ok " + joinOr(out)
 	}
 	implOps["cleaner.run"] = func(a []string) string {
